@@ -1141,6 +1141,13 @@ def k19_writeback_finally(core, rep):
 
 
 def k20_ctrl_c(core, rep):
+    # Ctrl-C has to arrive as KeyboardInterrupt: the prompt turns it into "not supplied" and the finally block writes the answers
+    # back.  Resetting the SIGINT disposition (signal.SIG_DFL / SIG_IGN, or a handler that exits) kills the process before either runs.
+    sig = [(rel, c) for rel, c in core.all_nodes(ast.Call) if isinstance(c.func, ast.Attribute) and c.func.attr in ('signal', 'sigaction', 'set_wakeup_fd')
+           and 'signal' in unparse(c.func.value) and c.args and 'SIGINT' in unparse(c.args[0])]
+    rep.ob('K20', 'ctrl-c-stays-an-exception', not sig,
+           f'`{unparse(sig[0][1], 60) if sig else ""}` changes what Ctrl-C does: the process is killed (or the signal swallowed) instead of raising KeyboardInterrupt, so neither the prompt\'s '
+           'handler nor the write-back in the finally block runs and every answer of the session is lost', f'{sig[0][0]}:{sig[0][1].lineno}' if sig else '')
     f = core.func('habutax/__init__.py', None, 'prompt_input')
     inputs = [c for c in calls_in(f.node) if isinstance(c.func, ast.Name) and c.func.id == 'input']
     if not inputs:
@@ -1757,9 +1764,12 @@ def _too_long_test(test):
     a, b = test.values
     if unparse(a) != 'self.max_length is not None':
         return False
+    def _plain_len(e):
+        # len(<name>): the length of the text itself, not of a shortened copy (len(value.lstrip('-')) lets one character more through)
+        return isinstance(e, ast.Call) and isinstance(e.func, ast.Name) and e.func.id == 'len' and len(e.args) == 1 and isinstance(e.args[0], ast.Name)
     return isinstance(b, ast.Compare) and len(b.ops) == 1 and (
-        (isinstance(b.ops[0], ast.Gt) and unparse(b.left).startswith('len(') and unparse(b.comparators[0]) == 'self.max_length')
-        or (isinstance(b.ops[0], ast.Lt) and unparse(b.comparators[0]).startswith('len(') and unparse(b.left) == 'self.max_length'))
+        (isinstance(b.ops[0], ast.Gt) and _plain_len(b.left) and unparse(b.comparators[0]) == 'self.max_length')
+        or (isinstance(b.ops[0], ast.Lt) and _plain_len(b.comparators[0]) and unparse(b.left) == 'self.max_length'))
 
 
 def _depth(n):
@@ -2199,6 +2209,43 @@ def k25b_list_forms_prints_names_whole(core, rep):
     cut = [x for x in ast.walk(f.node) if isinstance(x, ast.Subscript) and isinstance(x.slice, ast.Slice) and any(isinstance(y, ast.Name) and names and y.id == names[0].targets[0].id for y in ast.walk(x.value))]
     cut += [c for c in calls_in(f.node) if call_name(c) in ('shorten', 'truncate', 'ljust_cut')]
     rep.ob('K25b', 'name-printed-is-form_name', bool(names) and not cut, 'list-forms slices or shortens the form name it prints', _w(f, cut[0]) if cut else _w(f))
+
+
+# ---------------------------------------------------------------- K38 the solver object: always truthy, registries its own
+def k38_solver_object(core, rep):
+    """`Form.solver()` guards with `assert self._solver`, a truthiness test: the Solver class must not define __bool__ or
+    __len__ (a solver that is "falsy until solved" trips that assertion in every `s.form(name)` lookup during the solve).
+    The registries the solver fills (_input_map, _field_map, forms ...) are containers of its own, created in __init__ -
+    not an attribute of an argument (the input store's specification dict is the shared default `{}` of InputStore)."""
+    s = core.solver
+    ci = core.classes.classes.get(s.name)
+    dunder = [m for m in ('__bool__', '__len__') if ci is not None and m in ci.methods]
+    truth_tests = [n for rel, n in core.all_nodes((ast.Assert, ast.If)) if rel == 'habutax/form.py' and '_solver' in unparse(n.test) and not isinstance(n.test, ast.Compare)]
+    rep.ob('K38', 'solver-is-always-truthy', not dunder or not truth_tests,
+           f'{s.name} defines {dunder} while habutax/form.py tests the solver for truth (`{unparse(truth_tests[0].test, 40) if truth_tests else ""}`): whenever the method answers False '
+           '(before the solve has succeeded) every cross-form lookup `s.form(name)` dies with an AssertionError', f'{s.rel}:{ci.methods[dunder[0]].lineno}' if dunder else s.rel)
+    init = core.func(s.rel, s.name, '__init__')
+    params = {a.arg for a in init.node.args.args[1:]}
+    n = 0
+    for st in ast.walk(init.node):
+        if not (isinstance(st, ast.Assign) and len(st.targets) == 1 and self_attr(st.targets[0])):
+            continue
+        attr = self_attr(st.targets[0])
+        # containers the solver writes into
+        written = any((isinstance(x, (ast.Assign, ast.AugAssign)) and any(isinstance(t_, ast.Subscript) and self_attr(t_.value) == attr for t_ in (x.targets if isinstance(x, ast.Assign) else [x.target])))
+                      or (isinstance(x, ast.Call) and isinstance(x.func, ast.Attribute) and self_attr(x.func.value) == attr and x.func.attr in MUTATORS + ('add', 'append', 'extend'))
+                      or (isinstance(x, ast.AugAssign) and self_attr(x.target) == attr)
+                      for fn in core.funcs if fn.rel == s.rel and fn.cls == s.name for x in ast.walk(fn.node))
+        if not written:
+            continue
+        n += 1
+        # the argument itself (the input store the answers are meant to go into) is the caller's on purpose; a part of an argument is not
+        borrowed = isinstance(st.value, ast.Attribute) and isinstance(st.value.value, ast.Name) and st.value.value.id in params
+        rep.ob('K38', f'registry-is-the-solvers-own/{attr}', not borrowed,
+               f'{s.name}.__init__ binds self.{attr} to `{unparse(st.value, 40)}`, an object that belongs to an argument, and the solver writes into it: registrations leak into the other '
+               'object (and, where that is a shared default, into every later solver of the process - a later solve validates with an earlier year\'s inputs)', f'{s.rel}:{st.lineno}')
+    if n < 4:
+        raise AnalysisError(f'only {n} registries of the solver found (anchor vanished)')
 
 
 # ---------------------------------------------------------------- K24 dependency tracker shape
@@ -2991,6 +3038,40 @@ def k11i_strict_decoding(core, rep):
                 rep.ob('K11i', f'strict-decoding/{rel}@decode:{c.lineno}', False, f'{unparse(c, 80)} decodes leniently', f'{rel}:{c.lineno}')
     if m < 2:
         raise AnalysisError('open() calls of the package not found (anchor vanished)')
+    # the input file is written back with the encoding it is read with (one side pinned to UTF-8 and the other left to the
+    # platform default re-reads a non-ASCII answer as other characters wherever the default is not UTF-8)
+    def _enc(fn_):
+        out = []
+        for c in calls_in(fn_.node):
+            if call_name(c) == 'open' and isinstance(c.func, ast.Name):
+                e = next((k.value for k in c.keywords if k.arg == 'encoding'), c.args[3] if len(c.args) > 3 else None)
+                out.append(None if e is None else unparse(e))
+        return out
+    try:
+        rd, wr = _enc(core.method('InputStore', '__init__')), _enc(core.method('InputStore', 'write'))
+    except AnalysisError:
+        rd, wr = [], []
+    # an explicit encoding for a file that is written must be able to encode every answer (UTF family): with latin-1 / cp1252 /
+    # ascii a single character outside the code page aborts the write after the file was truncated
+    for rel, c in core.all_nodes(ast.Call):
+        if call_name(c) == 'open' and isinstance(c.func, ast.Name) and len(c.args) > 1 and isinstance(c.args[1], ast.Constant) and any(ch in str(c.args[1].value) for ch in 'wax+'):
+            e = next((k.value for k in c.keywords if k.arg == 'encoding'), c.args[3] if len(c.args) > 3 else None)
+            if e is None:
+                continue
+            val = e.value if isinstance(e, ast.Constant) else None
+            if val is None and self_attr(e):
+                cls_ = enclosing_class(c)
+                for st in (cls_.body if cls_ is not None else []):
+                    if isinstance(st, ast.Assign) and any(isinstance(t_, ast.Name) and t_.id == self_attr(e) for t_ in st.targets) and isinstance(st.value, ast.Constant):
+                        val = st.value.value
+            ok_e = isinstance(val, str) and val.lower().replace('_', '-').startswith(('utf-8', 'utf8', 'utf-16', 'utf-32', 'utf16', 'utf32'))
+            rep.ob('K11i', f'written-file-can-hold-any-text/{rel}:{c.lineno}', ok_e,
+                   f'{unparse(c, 70)} writes with encoding {val!r}: a character outside that code page (a typographic apostrophe, a euro sign) raises UnicodeEncodeError in the middle of the write, '
+                   'after the file was truncated - everything behind that point is lost', f'{rel}:{c.lineno}')
+    if rd and wr:
+        rep.ob('K11i', 'input-file-read-and-written-with-one-encoding', set(rd) == set(wr),
+               f'InputStore reads the input file with encoding {rd} and writes it back with {wr}: an answer with a character outside ASCII is re-read as other text on a platform whose '
+               'default encoding differs from the pinned one, so the re-run is not the run that was written back', 'habutax/inputs.py')
 
 
 def k12c_who_calls(core, rep):
@@ -3189,6 +3270,21 @@ def k22f_solution_written_unfiltered(core, rep):
     rep.ob('K22f', 'nothing-but-the-tax-year-is-added', not extra,
            f'the CLI changes the solution before writing it (`{unparse(extra[0], 60) if extra else ""}`): sections are added to or removed from what the solver produced, so the file holds forms '
            'or copies nothing in this run referred to (or lacks ones it did)', f'habutax/__init__.py:{extra[0].lineno}' if extra else _w(f))
+    # what goes into the solution file is that object and nothing else: every configuration written into a file opened
+    # for writing in the CLI solve() is `solution` itself (a union with what an earlier run left in the file keeps lines
+    # computed from inputs that have changed since)
+    for w in ast.walk(f.node):
+        if not isinstance(w, ast.With):
+            continue
+        for it in w.items:
+            if isinstance(it.optional_vars, ast.Name) and isinstance(it.context_expr, ast.Call) and call_name(it.context_expr) == 'open' \
+                    and len(it.context_expr.args) > 1 and isinstance(it.context_expr.args[1], ast.Constant) and any(ch in str(it.context_expr.args[1].value) for ch in 'wax+'):
+                fh = it.optional_vars.id
+                wr = [c for b in w.body for c in calls_in(b) if call_name(c) == 'write' and isinstance(c.func, ast.Attribute) and c.args and isinstance(c.args[0], ast.Name) and c.args[0].id == fh]
+                other = [c for c in wr if not (isinstance(c.func.value, ast.Name) and c.func.value.id == sol)]
+                rep.ob('K22f', f'file-receives-the-solution-itself@{unparse(it.context_expr, 40)}', bool(wr) and not other,
+                       f'the CLI writes `{unparse(other[0].func.value, 30) if other else "nothing"}` into {unparse(it.context_expr.args[0], 30)} instead of the solution the solver returned: '
+                       'the file can hold lines and forms that this run did not produce (kept from an earlier run, computed from other inputs)', f'habutax/__init__.py:{(other or wr or [w])[0].lineno}')
     with_names = {}
     for w in ast.walk(f.node):
         if isinstance(w, ast.With):
